@@ -739,6 +739,11 @@ def compare(ctx, case, ents, final, hops, got, measured):
     if missing or extra:
         # root cause: relocation below symlinked directories?
         rel = [e for e in ents if final[e["path"]] in missing and hops[e["path"]] > 0]
+        if not rel:
+            # the final location can exist anyway (re-created as a missing ancestor) while the entry itself was left
+            # part-way: recognise it by its (unique) basename among the unexpected paths
+            names = {os.path.basename(x) for x in extra}
+            rel = [e for e in ents if hops[e["path"]] > 0 and os.path.basename(e["path"]) in names]
         if rel:
             h = max(hops[e["path"]] for e in rel)
             e = rel[0]
